@@ -314,6 +314,13 @@ Definition p_Remove : prog :=
   p_queueMutation ++ p_breakpoint ++ p_processQueue.
 Definition p_Set : prog := p_pre ++ p_queueMutation ++ p_processQueue.
 Definition p_Toggle : prog := p_flags ++ p_Is ++ p_Remove ++ p_Add.
+(* drivers for transitions with EMPTY target states (every active state exits:
+   setupExitEnter sorts the whole exit list): Add(F, G); Remove(ActiveStates())
+   and Add(F, G); Set(S{}) - the same accesses as Add / Remove / Set, newTransition
+   reading activeStates under the SHARED activeStatesMx *)
+Definition p_RemoveAll : prog :=
+  p_Add ++ p_flags ++ locked activeStatesMx Sh [Read activeStates] ++ p_Remove.
+Definition p_SetNone : prog := p_Add ++ p_Set.
 Definition p_AddErr : prog := p_pre ++ [Atomic a_err; Atomic a_onError] ++ p_Add.
 Definition p_PrependMut : prog := p_prependCore ++ p_processQueue.
 Definition p_CanAdd : prog := p_pre ++ p_index ++ p_PrependMut.
@@ -497,6 +504,7 @@ Definition api_table : list entry := [
   (* mutations *)
   E "Add" p_Add; E "Add1" p_Add; E "Remove" p_Remove; E "Remove1" p_Remove;
   E "Set" p_Set; E "Toggle" p_Toggle; E "Toggle1" p_Toggle;
+  E "Remove.all" p_RemoveAll; E "Set.none" p_SetNone;
   E "AddErr" p_AddErr; E "AddErrState" p_AddErr;
   E "EvAdd" p_Add; E "EvAdd1" p_Add; E "EvRemove" p_Remove; E "EvRemove1" p_Remove;
   E "EvAddErr" p_AddErr; E "EvAddErrState" p_AddErr;
